@@ -1,8 +1,13 @@
 """C17 - grid names normalise to one valid (algorithm, N) or are rejected with ValueError
 (molgri.naming.NameParser / GridNameParser, molgri.constants tables, molgri.space.rotobj factories).
 
-A case is {"name": str[, "roles": [..]]} (both roles "o" and "b" unless given), {"kind": "tables"} or
-{"kind": "factory", "alg", "N", "role"}.
+A case is {"name": str[, "roles": [..]][, "nrep": name representation][, "rrep": [role representation per role]]
+[, "frep": [alg, N, dimensions representation]][, "canon": the same name with canonically spelled numbers]} (both roles "o"
+and "b" unless given), {"kind": "tables"} or {"kind": "factory", "alg", "N", "role"[, "frep"]}.
+
+INPUT REPRESENTATION: the case stores the *denoted* values (plain str / int, what the model gets); `impl` hands them to the
+package in the representation named by nrep / rrep / frep (seed-chosen per case, plus an exhaustive sweep of all families
+over a few fixed cases).  The families were established on the unchanged tree (see REPRESENTATIONS / LEFT_OUT below).
 
 correspondence (C): NameParser(name) scan results, GridNameParser(name, role) outcome (alg, N, standard name | exception
     name) and the factory's choice of generator class, against the Lean model `Molgri.Naming` with its hard-wired tables;
@@ -12,7 +17,12 @@ oracle (S): the property's own clauses evaluated on the implementation only (pin
 """
 from __future__ import annotations
 
+import hashlib
 import itertools
+import os
+from enum import Enum
+
+import numpy as np
 
 import core
 
@@ -21,7 +31,13 @@ RULE = ("exhaustive: every name of 1..3 (thorough: 1..4) underscore-joined token
         "every order, each for both roles; quick: every 4-token name over 18 of these tokens (without 01, 12, None, xzeroy, Ico); "
         "thorough: every 5-token name over 10 of them; then every standard name alg_N (N = 1..12 quick / 1..40 thorough) of both roles fed to "
         "both roles; then random names (longer token lists, character-level edits of valid names, non-ASCII junk, other role "
-        "strings) and a few names with non-ASCII numeric characters (oracle only). Distinct = distinct name; non-trivial = the "
+        "strings) and a few names with non-ASCII numeric characters (oracle only). Every case draws (from the seed) the "
+        "representation in which its arguments are handed to the package: role as str literal / run-time built str (join, slice, "
+        "strip) / numpy.str_ / element of a numpy str array / str subclass / str-mixin Enum member; name as run-time built str / "
+        "numpy.str_ / str subclass; factory arguments alg as str / numpy.str_ / str subclass, N as int / numpy.int64 / numpy.int32, "
+        "dimensions as int / numpy.int64; all families are swept exhaustively over 6 fixed names and 3 fixed factory calls; numbers "
+        "inside names in every spelling int() accepts (zero-padded, 5 Unicode digit scripts, mixed) must give the outcome of the "
+        "canonical spelling. Distinct = distinct name; non-trivial = the "
         "name contains a number, an algorithm token or 'zero' (i.e. it is not rejected merely for being junk)")
 CHUNK = 20000
 
@@ -44,7 +60,122 @@ NONASCII_NUMERIC = ["ico_٣", "٣", "ico_²", "½_cube4D", "randomQ_１２", "²
                     "zero_١", "7_٣", "cube3D_1٢"]
 
 _construct_cache: dict = {}
-_state = {"nmax": 12}
+_state = {"nmax": 12, "seed": int(os.environ.get("VERIF_SEED", "0") or 0)}
+
+
+# ---------------------------------------------------------------------------------------------------------------------
+# input representations (established on the unchanged tree: every family below is accepted by the package and gives,
+# for all probe names / factory calls, exactly the outcome of the plain-Python reference)
+# ---------------------------------------------------------------------------------------------------------------------
+class _SubStr(str):
+    """a plain str subclass"""
+
+
+class _RoleEnum(str, Enum):
+    """str-mixin Enum: members are == "o" / == "b" and are str instances"""
+    O = "o"
+    B = "b"
+
+
+ROLE_REPS = ("lit", "join", "slice", "strip", "npstr", "nparr", "sub", "enum")
+NAME_REPS = ("str", "npstr", "sub")
+ALG_REPS = ("str", "npstr", "sub")
+N_REPS = ("int", "i64", "i32")
+DIM_REPS = ("int", "i64")
+SPELLINGS = ("canon", "pad1", "pad3", "fullwidth", "arabic", "devanagari", "mathbold", "mixed")
+REPRESENTATIONS = {
+    "role": {"lit": "the str literal", "join": "''.join([...]) at run time", "slice": "('x'+r+'y')[1:-1]", "strip": "(' '+r+'\\n').strip()",
+             "npstr": "numpy.str_(r)", "nparr": "element of numpy.array([r, ...])", "sub": "instance of a str subclass",
+             "enum": "member of a str-mixin Enum (roles 'o'/'b'; other role strings use the str subclass)"},
+    "name": {"str": "str built at run time ('_'.join / ''.join, not interned)", "npstr": "numpy.str_(name)", "sub": "str subclass instance"},
+    "number_spelling": {"canon": "str(int)", "pad1": "one leading zero", "pad3": "three leading zeros", "fullwidth": "U+FF10..",
+                        "arabic": "Arabic-Indic U+0660..", "devanagari": "U+0966..", "mathbold": "U+1D7CE.. (non-BMP)",
+                        "mixed": "ASCII and Arabic-Indic digits alternating"},
+    "factory": {"alg": list(ALG_REPS), "N": ["int", "numpy.int64", "numpy.int32"], "dimensions": ["int", "numpy.int64"]},
+}
+LEFT_OUT = {
+    "role: bytes, numpy.bytes_, ['o'], ('o',)": "not equal to 'o' in Python (a different value, not another representation of the role); "
+                                                 "the parser sends every value != 'o' to the rotation branch on the unchanged tree",
+    "role: 0-d / 1-element numpy str array": "not a str; agrees with 'o' on the unchanged tree only through ndarray truthiness of `== 'o'`",
+    "name: bytes, numpy.bytes_": "TypeError on the unchanged tree (`'zero' in name_string` / split('_') on bytes)",
+    "name: 0-d numpy str array": "AttributeError on the unchanged tree (ndarray has no split)",
+    "factory N: float, numpy.float64": "TypeError on the unchanged tree (slice / range / random need an integer)",
+    "number spelling: '+7', ' 7', '7 ', '7.0', '1e1'": "str.isnumeric() is False: the token is junk, not a number (by design of the parser)",
+    "number spelling: superscripts, fractions, Roman numerals": "str.isnumeric() is True but int() raises ValueError: the name is rejected "
+                                                                 "with ValueError, which the property allows (covered by NONASCII_NUMERIC cases)",
+}
+_NP_ROLE_ARRAY = np.array(["o", "b"])
+_DIGITS = {"fullwidth": 0xFF10, "arabic": 0x0660, "devanagari": 0x0966, "mathbold": 0x1D7CE}
+
+
+def role_in(role: str, rep: str):
+    if rep == "lit":
+        return role
+    if rep == "join":
+        return "".join([ch for ch in role])
+    if rep == "slice":
+        return ("x" + role + "y")[1:-1]
+    if rep == "strip":
+        return (" " + role + "\n").strip() if role == role.strip() else "".join(list(role))
+    if rep == "npstr":
+        return np.str_(role)
+    if rep == "nparr":
+        return _NP_ROLE_ARRAY["ob".index(role)] if role in ("o", "b") else np.array([role, "zz"])[0]
+    if rep == "sub":
+        return _SubStr(role)
+    if rep == "enum":
+        return _RoleEnum(role) if role in ("o", "b") else _SubStr(role)
+    raise core.HarnessError(f"unknown role representation {rep}")
+
+
+def name_in(name: str, rep: str):
+    if rep == "str":
+        return name if len(name) > 1 and "_" in name else "".join(list(name))   # cases() builds names with '_'.join at run time
+    if rep == "npstr":
+        return np.str_(name)
+    if rep == "sub":
+        return _SubStr(name)
+    raise core.HarnessError(f"unknown name representation {rep}")
+
+
+def name_rep_ok(name: str, rep: str) -> bool:
+    """numpy.str_ drops trailing NULs"""
+    return rep != "npstr" or not name.endswith("\x00")
+
+
+def factory_args(alg, n, dim, frep):
+    a = {"str": lambda x: x, "npstr": np.str_, "sub": _SubStr}[frep[0]](alg)
+    nn = {"int": int, "i64": np.int64, "i32": np.int32}[frep[1]](n)
+    d = {"int": int, "i64": np.int64}[frep[2]](dim)
+    return a, nn, d
+
+
+def frep_for(alg, n, dim):
+    """seed-chosen representation of the factory arguments for this (alg, N, dimensions): one construction per triple"""
+    h = hashlib.sha256(f"C17-{_state['seed']}-{alg}-{n}-{dim}".encode()).digest()
+    return [ALG_REPS[h[0] % len(ALG_REPS)], N_REPS[h[1] % len(N_REPS)], DIM_REPS[h[2] % len(DIM_REPS)]]
+
+
+def spell(v: int, how: str) -> str:
+    c = str(v)
+    if how == "canon":
+        return c
+    if how == "pad1":
+        return "0" + c
+    if how == "pad3":
+        return "000" + c
+    if how == "mixed":
+        return "".join(ch if i % 2 == 0 else chr(0x0660 + int(ch)) for i, ch in enumerate("0" + c))
+    return "".join(chr(_DIGITS[how] + int(ch)) for ch in c)
+
+
+def draw_reps(rng, case):
+    """seed-chosen representation of the role(s) and of the name of a parse case"""
+    roles = case.get("roles", ["o", "b"])
+    case["rrep"] = [rng.choice(ROLE_REPS) for _ in roles]
+    rep = rng.choice(NAME_REPS)
+    case["nrep"] = rep if name_rep_ok(case["name"], rep) else "str"
+    return case
 
 
 def in_model_scope(name: str) -> bool:
@@ -56,8 +187,31 @@ def in_model_scope(name: str) -> bool:
 # generators
 # ---------------------------------------------------------------------------------------------------------------------
 def cases(ctx):
+    for c in _cases(ctx):
+        if "name" in c and "rrep" not in c:
+            draw_reps(ctx.rng, c)
+        yield c
+
+
+def _cases(ctx):
     _state["nmax"] = 12 if ctx.quick else 40
+    _state["seed"] = ctx.seed
+    ctx.extra_cov["input_representations"] = dict(REPRESENTATIONS, left_out=LEFT_OUT)
     yield {"kind": "tables"}
+    # INPUT REPRESENTATION, exhaustive sweep of all families over a few fixed cases
+    for name in ("15", "1", "ico_15", "cube4D_7", "zero", "randomQ_1_abc"):
+        for rr in ROLE_REPS:
+            for nr in NAME_REPS:
+                yield {"name": name, "rrep": [rr, rr], "nrep": nr}
+    for alg, n, role in (("ico", 7, "o"), ("randomQ", 5, "b"), ("cube4D", 8, "b"), ("fulldiv", 9, "b")):
+        for fr in itertools.product(ALG_REPS, N_REPS, DIM_REPS):
+            yield {"kind": "factory", "alg": alg, "N": n, "role": role, "frep": list(fr)}
+    # numbers inside names in every accepted spelling: the outcome must be that of the canonical spelling
+    for v in (0, 1, 7, 12, 40):
+        for how in SPELLINGS:
+            t = spell(v, how)
+            for pat in ("{t}", "ico_{t}", "{t}_cube4D", "zero_{t}", "randomQ_{t}_abc", "{t}_{t}", "fulldiv_{t}"):
+                yield {"name": pat.format(t=t), "canon": pat.format(t=str(v))}
     # factory dispatch on valid and invalid (alg, role) pairs
     for alg in list(SPEC_ALL) + ["abc", "Ico", "cube3d", ""]:
         for n in (1, 5, 8, 9):
@@ -120,6 +274,12 @@ def cases(ctx):
         c = {"name": name}
         if i % 50 == 0:
             c["roles"] = ["o", "b", "x", "", "B", "O"]
+        if i % 7 == 0:       # re-spell the ASCII numbers of the name (seed-chosen spelling); outcome must not change
+            toks = name.split("_")
+            how = rng.choice(SPELLINGS[1:])
+            sp = [spell(int(t), how) if t != "" and all(ch in ASCII_DIGITS for ch in t) and len(t) < 9 else t for t in toks]
+            if sp != toks:
+                c = dict(c, name="_".join(sp), canon="_".join(str(int(t)) if a != t else t for a, t in zip(sp, toks)))
         yield c
 
 
@@ -147,18 +307,21 @@ def parse_impl(name, role):
         return {"err": core.errname(e)}
 
 
-def construct(alg, n, dim):
-    key = (alg, n, dim)
+def construct(alg, n, dim, frep=None):
+    frep = list(frep) if frep else frep_for(alg, n, dim)
+    key = (alg, n, dim, tuple(frep))
     if key not in _construct_cache:
         from molgri.space.rotobj import SphereGridFactory
         try:
+            a, nn, d = factory_args(alg, n, dim, frep)
             with core.quiet():
-                g = SphereGridFactory.create(alg, n, dim)
+                g = SphereGridFactory.create(a, nn, d)
                 arr = g.get_grid_as_array()
                 r = {"cls": type(g).__name__, "points": int(len(arr)), "row_len": int(arr.shape[1]) if arr.ndim == 2 else -1,
                      "full_shape": [int(x) for x in g.grid.shape], "decl_N": _jsonable(g.N), "get_N": int(g.get_N())}
         except Exception as e:
             r = {"err": core.errname(e), "msg": str(e)[:120]}
+        r["frep"] = frep
         _construct_cache[key] = r
     return _construct_cache[key]
 
@@ -173,9 +336,11 @@ def impl(case):
                          "defO": mod.DEFAULT_ALGORITHM_O, "defB": mod.DEFAULT_ALGORITHM_B, "all": list(mod.ALL_GRID_ALGORITHMS)}
         return {"constants": g(C), "naming": g(NM)}
     if kind == "factory":
-        return construct(case["alg"], case["N"], SPEC[case["role"]]["dim"])
+        return construct(case["alg"], case["N"], SPEC[case["role"]]["dim"], case.get("frep"))
     from molgri.naming import NameParser
-    name = case["name"]
+    roles = case.get("roles", ["o", "b"])
+    rrep = case.get("rrep") or ["lit"] * len(roles)
+    name = name_in(case["name"], case.get("nrep", "str"))
     out = {}
     try:
         p = NameParser(name)
@@ -183,15 +348,18 @@ def impl(case):
     except Exception as e:
         out["scan"] = {"err": core.errname(e)}
     nmax = 300 if case.get("construct_big") else _state["nmax"]
-    for role in case.get("roles", ["o", "b"]):
-        r = parse_impl(name, role)
+    for role, rr in zip(roles, rrep):
+        robj = role_in(role, rr)
+        r = parse_impl(name, robj)
         if "err" not in r:
             if isinstance(r["std"], str):
-                r["reparse"] = parse_impl(r["std"], role)
+                r["reparse"] = parse_impl(name_in(r["std"], case.get("nrep", "str")), robj)
             if role in SPEC and isinstance(r["alg"], str) and isinstance(r["N"], int) and not isinstance(r["N"], bool) \
                     and 0 <= r["N"] <= nmax:
-                r["construct"] = construct(r["alg"], r["N"], SPEC[role]["dim"])
+                r["construct"] = construct(str(r["alg"]), int(r["N"]), SPEC[role]["dim"], case.get("frep"))
         out[role] = r
+    if "canon" in case:      # the same name with canonically spelled numbers, plain representation: the reference outcome
+        out["canon"] = {role: parse_impl(case["canon"], role) for role in roles}
     return out
 
 
@@ -246,10 +414,14 @@ def compare(ctx, case, out, mouts):
     if kind == "factory":
         if not _same_factory(out, mouts[0]):
             ctx.corr("factory/dispatch", case, out, mouts[0])
+        ctx.branch("frep:" + "/".join(out.get("frep", ["?"])))
         ctx.branch("factory:" + (out.get("err") or "ok"))
         ctx.nt(("factory", case["alg"], case["N"], case["role"]))
         return
     name = case["name"]
+    ctx.branch("nrep:" + case.get("nrep", "str"))
+    for rr in case.get("rrep") or []:
+        ctx.branch("rrep:" + rr)
     if not mouts:
         ctx.branch("nonascii_numeric:excluded_from_correspondence")
         return
@@ -295,7 +467,7 @@ def oracle(ctx, case, out):
         role, alg, n = case["role"], case["alg"], case["N"]
         sp = SPEC[role]
         if alg in sp["algs"] or (alg == sp["zero"] and n == 1):
-            _judge_construct(ctx, case, role, alg, n, out)
+            _judge_construct(ctx, dict(case, frep=out.get("frep")), role, alg, n, out)
         return
     name = case["name"]
     tokens = name.split("_")
@@ -315,14 +487,25 @@ def oracle(ctx, case, out):
         ctx.branch("two_or_more_algorithm_tokens")
     if has_zero:
         ctx.branch("zero_keyword")
-    for role in case.get("roles", ["o", "b"]):
+    roles = case.get("roles", ["o", "b"])
+    rrep = case.get("rrep") or ["lit"] * len(roles)
+    nrep = case.get("nrep", "str")
+    for role, rr in zip(roles, rrep):
         if role not in SPEC:
             ctx.branch("other_role_string:correspondence_only")
             continue
         sp = SPEC[role]
         r = out[role]
-        w = f"GridNameParser({name!r}, {role!r})"
-        cc = {"name": name, "roles": [role]}
+        w = f"GridNameParser({name!r} [{nrep}], {role!r} [{rr}])"
+        cc = {"name": name, "roles": [role], "rrep": [rr], "nrep": nrep}
+        if "canon" in case:
+            cc["canon"] = case["canon"]
+            ref = out["canon"][role]
+            ctx.branch("number_spelling:compared_with_canonical")
+            if (ref.get("err"), ref.get("alg"), ref.get("N"), ref.get("std")) != (r.get("err"), r.get("alg"), r.get("N"), r.get("std")):
+                ctx.fail("C17:number_spelling", f"{w}: outcome differs from that of the canonically spelled name {case['canon']!r}",
+                         cc, ref, {k: r.get(k) for k in ("err", "alg", "N", "std")})
+                continue
         if "err" in r:
             ctx.branch(f"{role}:{r['err']}")
             if r["err"] != "ValueError":
@@ -386,7 +569,7 @@ def oracle(ctx, case, out):
             continue
         # constructing the grid
         if "construct" in r:
-            _judge_construct(ctx, cc, role, alg, N, r["construct"])
+            _judge_construct(ctx, dict(cc, frep=r["construct"].get("frep")), role, alg, N, r["construct"])
         else:
             ctx.branch("construct:skipped_N_above_bound")
         if ascii_name and len(ctx.samples) < 6 and len(tokens) >= 3 and N > 1:
@@ -395,7 +578,7 @@ def oracle(ctx, case, out):
 
 def _judge_construct(ctx, cc, role, alg, N, c):
     dim = SPEC[role]["dim"]
-    w = f"SphereGridFactory.create({alg!r}, {N}, {dim})"
+    w = f"SphereGridFactory.create({alg!r}, {N}, {dim}) [alg/N/dimensions as {'/'.join(c.get('frep') or ['?'])}]"
     if "err" in c:
         if c["err"] == "ValueError" and alg == "fulldiv" and N not in FULLDIV_DOCUMENTED:
             ctx.branch("construct:documented_ValueError_fulldiv")
